@@ -73,11 +73,11 @@ class GenoIndex(SubCheck):
 
     def shapes(self, tier):
         if tier == "quick":
-            one = [(1, 4), (2, 3), (2, 5), (3, 3), (3, 4), (4, 3)]
+            one = [(1, 4), (2, 3), (2, 5), (3, 3), (4, 2)]
             two = [(1, 4), (2, 3), (3, 2)]
         else:
-            one = [(1, 6), (2, 4), (2, 6), (3, 4), (3, 5), (4, 3), (4, 4), (5, 3), (6, 2)]
-            two = [(1, 6), (2, 3), (2, 4), (3, 3), (4, 2)]
+            one = [(1, 6), (2, 4), (2, 6), (3, 3), (3, 4), (4, 3), (5, 2), (6, 2)]
+            two = [(1, 6), (2, 3), (2, 4), (3, 2), (4, 2)]
         return [dict(p=p, n=n, two=False) for p, n in one] + [dict(p=p, n=n, two=True) for p, n in two]
 
     def bounds(self, tier):
